@@ -1,10 +1,14 @@
 #!/bin/bash
 # usage: lib/muttest.sh Cxx /tmp/mut-Cxx/out [tier]  — run the check for Cxx against every m*/patch.diff of an
-# independent mutation agent (applied to /repo, reverted straight afterwards); one summary line per mutation.
+# independent mutation agent (applied to /repo, reverted straight afterwards); one summary line per mutation:
+#   mK: CAUGHT|missed exit=N <first VIOLATION line or OK line>
 prop=$1; dir=$2; tier=${3:-quick}
 cd "$(dirname "$0")/.."
 for m in "$dir"/m*/; do
   [ -f "$m/patch.diff" ] || continue
-  r=$(lib/seedtest.sh "$m/patch.diff" "$prop" "$tier" 2>&1 | tail -4 | tr '\n' ' ' | cut -c1-400)
-  echo "$(basename $m): $r"
+  out=$(lib/seedtest.sh "$m/patch.diff" "$prop" "$tier" 2>&1)
+  rc=$(echo "$out" | grep -o 'exit=[0-9]*' | tail -1)
+  first=$(grep -E '^(VIOLATION|OK)' build/seedtest.out | head -1 | cut -c1-120)
+  if echo "$out" | grep -q 'does not apply'; then verdict="NOAPPLY"; elif [ "$rc" = "exit=1" ] && grep -q '^VIOLATION' build/seedtest.out; then verdict=CAUGHT; else verdict=missed; fi
+  echo "$(basename $m): $verdict $rc $first"
 done
